@@ -1077,6 +1077,12 @@ func c06Arms(c *Ctx, rule string) {
 			}
 			arm := &ast.BlockStmt{List: cc.Body}
 			key := f.Name + "|" + cst.Name()
+			if len(cc.List) > 1 {
+				// several join types share one arm (their difference is decided by a flag inside): the per-arm
+				// shape rules do not apply
+				c.Undecided(rule, key, "the arm for %s is shared with other join types; what it does for each of them is decided at run time inside the arm and is not analysed", cst.Name())
+				continue
+			}
 			var problems []string
 			// row roles inside this arm: range variables over lRows / rRows; pad rows made with len(lFields)/len(rFields)
 			side := map[types.Object]int{} // 1 = left width, 2 = right width
